@@ -22,6 +22,7 @@ def WfGt : GtRes → Prop
 structure WfCallSet (cols contigs : List String) (recs : List (String × Nat × List GtRes)) : Prop where
   cols_ne : cols ≠ []
   cols_wf : ∀ c ∈ cols, WfName c
+  cols_nodup : cols.Nodup                 -- a header naming a sample twice is refused by the parser
   contigs_wf : ∀ c ∈ contigs, WfContig c
   contigs_nodup : contigs.Nodup
   recs_wf : ∀ r ∈ recs, r.1 ∈ contigs ∧ 1 ≤ r.2.1 ∧ r.2.2.length = cols.length ∧ ∀ g ∈ r.2.2, WfGt g
@@ -31,6 +32,6 @@ structure FitsBcf (cols contigs : List String) (recs : List (String × Nat × Li
   ncols : cols.length < 2 ^ 24
   ncontigs : contigs.length < 2 ^ 31
   text : (headerText cols contigs).length + 1 < 2 ^ 32
-  pos : ∀ r ∈ recs, r.2.1 ≤ 2 ^ 31
+  pos : ∀ r ∈ recs, r.2.1 < 2 ^ 31      -- the stored position `pos - 1` stays below `i32::MAX` (at which the reader overflows)
 
 end Sfs
